@@ -232,3 +232,6 @@ def run(ck, F):
     for r in (r07_1, r07_2, r07_3, r07_4, r07_5, r07_6):
         ck.run_rule(r)
     ck.run_rule(c10.r10_2)     # an unanswered request leaks its outstanding entry: shared clause
+    ck.run_rule(c10.r10_7)     # an OpenPort that never gets a Request is never answered: neither dispatcher can finish
+    import c08
+    ck.run_rule(c08.r08_3)     # the reserved slot for the ClientDropped marker: without it an orderly shutdown ends in a protocol error
